@@ -90,10 +90,12 @@ def _skip(combo, o, form):
     return False
 
 
-def check(term, o, res, label):
-    """evaluate / keys / explain of one term under one dictionary against the reference."""
+def check(term, o, res, label, built=None):
+    """evaluate / keys / explain of one term under one dictionary against the reference.  ``built`` is a
+    long-lived (world, object) pair shared by all dictionaries of one form: explain() / keys() of one
+    dictionary must not leave anything behind that changes the answers for the next."""
     fails = []
-    w, obj = make(term, "nocache")
+    w, obj = built if built is not None else make(term, "nocache")
     r = Ref()
     want = r.run(term, o)
     # the reads of the *substitution*: not the parameters' pseudo keys, and not the own key of an
@@ -125,6 +127,10 @@ def check(term, o, res, label):
         fail("explain-failed", repr(ex))
     elif not allr <= set(ex.value):
         fail("explain-omits-a-read", f"explain()={sorted(ex.value)} but the substitution reads {sorted(allr)}")
+    if want.ok:
+        va = observe(w, lambda: obj.validate(copy.deepcopy(o)))
+        if not va.ok:
+            fail("validate-failed-although-evaluable", repr(va))
     return fails
 
 
@@ -133,6 +139,13 @@ def run_case(case):
     if case[0] == "one":
         _, label, term, o = case
         res["failures"] = check(term, o, res, label)
+        return res
+    if case[0] == "seq":
+        _, label, term, hist = case
+        built = make(term, "nocache")
+        for o in hist:
+            found = check(term, o, res, label, built)
+        res["failures"] = found
         return res
     if case[0] in ("nested", "selfsect"):
         label, term = (NESTED_FORMS if case[0] == "nested" else SELF_FORMS)[case[1]]
@@ -169,18 +182,34 @@ def run_case(case):
             forms.append((f"Template({s!r})", ("tmpl", s, {})))
             forms.append((f"Option('T') with T={s!r}", None))
             forms.append((f"Option('T', default={s!r})", ("opt", "T", ("tmpl", s, {}))))
+        # an Option with a constant default whose stored value is the template: the default is for an ABSENT key,
+        # never for a present value whose references cannot be resolved
+        if 3 not in combo:
+            forms.append((f"Option('T', default='dflt') with T={s!r}", "stored-with-default"))
         for label, term in forms:
             reported = set()
-            for o in dicts:
+            stored = term is None or term == "stored-with-default"
+            t = ("opt", "T") if term is None else (("opt", "T", ("val", "dflt")) if term == "stored-with-default" else term)
+            built = make(t, "nocache")
+            history = []
+            # largest dictionaries first: whatever explain() / keys() remember from a rich dictionary must not
+            # be demanded from a poorer one
+            for o in sorted(dicts, key=lambda d: -len(d)):
                 if _skip(combo, o, label):
                     res["skipped"] += 1
                     continue
                 oo = copy.deepcopy(o)
-                t = term
-                if t is None:
-                    t = ("opt", "T")
+                if stored:
                     oo["T"] = s
-                for f in check(t, oo, res, label):
+                history.append(oo)
+                found = check(t, oo, res, label, built)
+                if found:
+                    fresh = {g["sig"].split("|")[1] for g in check(t, oo, {"evaluations": 0, "nontrivial": 0}, label)}
+                    for f in found:
+                        if f["sig"].split("|")[1] not in fresh:  # needs the earlier dictionaries on the same object
+                            f["case"] = ("seq", label, t, list(history))
+                            f["what"] += f" (after {len(history) - 1} other dictionaries on the same object)"
+                for f in found:
                     kind = f["sig"].split("|")[1]
                     if kind not in reported:
                         reported.add(kind)
